@@ -178,11 +178,17 @@ func checkCase(c Case) error {
 	if err != nil {
 		return fmt.Errorf("SignEFIVariable: %v", err)
 	}
+	// the returned value is the update that was signed: preparing the next update on the caller's database
+	// object must not change it
+	if db, ok := m.(*signature.SignatureDatabase); ok {
+		db.Append(signature.CERT_SHA256_GUID, adapt.Lib(gen.Owners[2]), bytes.Repeat([]byte{0xee}, 32))
+		hx.Class("payload_object_modified_after_signing")
+	}
 	got := out.Bytes()
-	var mb bytes.Buffer
-	out.Marshal(&mb)
-	if !bytes.Equal(mb.Bytes(), got) {
-		return fmt.Errorf("Marshal and Bytes of the returned value differ")
+	mb := bytes.NewBufferString("already-there")
+	out.Marshal(mb)
+	if !bytes.Equal(mb.Bytes(), append([]byte("already-there"), got...)) {
+		return fmt.Errorf("Marshal (into a buffer that already holds bytes) and Bytes of the returned value differ")
 	}
 
 	// --- independent decoding of the byte string
